@@ -5,9 +5,9 @@
 // Whole-function runs over std's HashMap are out of the model checker's reach (probed: minutes /
 // gigabytes for a one-entry map), so the driver rewrites, in the scratch copy only, the two `use` lines
 //     use std::collections::hash_map::Entry;          -> use verif_kani::Entry;
-//     use std::collections::{BTreeMap, HashMap};      -> use std::collections::BTreeMap; use verif_kani::SmallMap as HashMap;
-// i.e. the *type* of `SignalData::signals` becomes the vector-backed map below with the same API
-// surface. Everything else - every executable line of lib.rs and half_lock.rs - is the real code.
+//     use std::collections::{BTreeMap, HashMap};      -> use verif_kani::OrdMap as BTreeMap; use verif_kani::SmallMap as HashMap;
+// i.e. the *types* of `SignalData::signals` and `Slot::actions` become the vector-backed maps below
+// with the same API surface (the second one keeps its entries sorted by key, as BTreeMap does). Everything else - every executable line of lib.rs and half_lock.rs - is the real code.
 // The assumption this introduces is exactly ledger entry A2 "HashMap behaves as a map".
 #![allow(dead_code, static_mut_refs, unused_imports, unused_unsafe)]
 use super::*;
@@ -16,34 +16,39 @@ use std::sync::atomic::{AtomicBool, AtomicPtr, AtomicUsize, Ordering};
 #[path = "/verif/kani/libc_model.rs"]
 mod lm;
 
-// ---- the map stand-in ------------------------------------------------------------------------
+// ---- the map stand-ins: fixed capacity, loops bounded by a constant -------------------------------
+pub const MAP_CAP: usize = 2; // signals per harness
+pub const ORD_CAP: usize = 3; // actions per signal per harness
 #[derive(Clone)]
 pub struct SmallMap<K, V> {
-    items: Vec<(K, V)>,
+    items: [Option<(K, V)>; MAP_CAP],
 }
 impl<K: PartialEq + Copy, V> SmallMap<K, V> {
     pub fn new() -> Self {
-        SmallMap { items: Vec::new() }
+        SmallMap { items: [None, None] }
     }
     fn pos(&self, k: &K) -> Option<usize> {
         let mut i = 0;
-        while i < self.items.len() {
-            if self.items[i].0 == *k {
-                return Some(i);
+        let mut r = None;
+        while i < MAP_CAP {
+            if let Some((kk, _)) = &self.items[i] {
+                if *kk == *k && r.is_none() {
+                    r = Some(i);
+                }
             }
             i += 1;
         }
-        None
+        r
     }
     pub fn get(&self, k: &K) -> Option<&V> {
         match self.pos(k) {
-            Some(i) => Some(&self.items[i].1),
+            Some(i) => self.items[i].as_ref().map(|kv| &kv.1),
             None => None,
         }
     }
     pub fn get_mut(&mut self, k: &K) -> Option<&mut V> {
         match self.pos(k) {
-            Some(i) => Some(&mut self.items[i].1),
+            Some(i) => self.items[i].as_mut().map(|kv| &mut kv.1),
             None => None,
         }
     }
@@ -52,9 +57,6 @@ impl<K: PartialEq + Copy, V> SmallMap<K, V> {
             Some(i) => Entry::Occupied(Occupied { map: self, i }),
             None => Entry::Vacant(Vacant { map: self, k }),
         }
-    }
-    pub fn len(&self) -> usize {
-        self.items.len()
     }
 }
 pub enum Entry<'a, K, V> {
@@ -67,7 +69,7 @@ pub struct Occupied<'a, K, V> {
 }
 impl<'a, K, V> Occupied<'a, K, V> {
     pub fn get_mut(&mut self) -> &mut V {
-        &mut self.map.items[self.i].1
+        &mut self.map.items[self.i].as_mut().unwrap().1
     }
 }
 pub struct Vacant<'a, K, V> {
@@ -76,9 +78,113 @@ pub struct Vacant<'a, K, V> {
 }
 impl<'a, K, V> Vacant<'a, K, V> {
     pub fn insert(self, v: V) -> &'a mut V {
-        self.map.items.push((self.k, v));
-        let n = self.map.items.len();
-        &mut self.map.items[n - 1].1
+        let i = if self.map.items[0].is_none() {
+            0
+        } else {
+            assert!(self.map.items[1].is_none(), "harness capacity: at most MAP_CAP signals (harness bug, not a property)");
+            1
+        };
+        self.map.items[i] = Some((self.k, v));
+        &mut self.map.items[i].as_mut().unwrap().1
+    }
+}
+
+// ordered map stand-in for BTreeMap<ActionId, Arc<Action>>: a compact prefix kept sorted by key
+#[derive(Clone)]
+pub struct OrdMap<K, V> {
+    items: [Option<(K, V)>; ORD_CAP],
+}
+impl<K: Ord + Copy, V> OrdMap<K, V> {
+    pub fn new() -> Self {
+        OrdMap { items: [None, None, None] }
+    }
+    pub fn len(&self) -> usize {
+        let mut n = 0;
+        let mut i = 0;
+        while i < ORD_CAP {
+            if self.items[i].is_some() {
+                n += 1;
+            }
+            i += 1;
+        }
+        n
+    }
+    pub fn insert(&mut self, k: K, v: V) -> Option<V> {
+        // existing key: replace
+        let mut i = 0;
+        while i < ORD_CAP {
+            if let Some((kk, vv)) = &mut self.items[i] {
+                if *kk == k {
+                    return Some(std::mem::replace(vv, v));
+                }
+            }
+            i += 1;
+        }
+        let n = self.len();
+        assert!(n < ORD_CAP, "harness capacity: at most ORD_CAP actions per signal (harness bug, not a property)");
+        // position = number of smaller keys
+        let mut pos = 0;
+        let mut i = 0;
+        while i < ORD_CAP {
+            if let Some((kk, _)) = &self.items[i] {
+                if *kk < k {
+                    pos += 1;
+                }
+            }
+            i += 1;
+        }
+        let mut j = ORD_CAP - 1;
+        while j > 0 {
+            if j > pos && j <= n {
+                self.items[j] = self.items[j - 1].take();
+            }
+            j -= 1;
+        }
+        self.items[pos] = Some((k, v));
+        None
+    }
+    pub fn remove(&mut self, k: &K) -> Option<V> {
+        let mut found = None;
+        let mut i = 0;
+        while i < ORD_CAP {
+            if found.is_none() {
+                if let Some((kk, _)) = &self.items[i] {
+                    if *kk == *k {
+                        found = self.items[i].take().map(|kv| kv.1);
+                    }
+                }
+            } else {
+                // shift the rest left
+                self.items[i - 1] = self.items[i].take();
+            }
+            i += 1;
+        }
+        found
+    }
+    pub fn values(&self) -> Values<'_, K, V> {
+        Values { m: self, i: 0 }
+    }
+    pub fn is_empty(&self) -> bool {
+        self.items[0].is_none()
+    }
+    pub fn clear(&mut self) {
+        self.items = [None, None, None];
+    }
+}
+pub struct Values<'a, K, V> {
+    m: &'a OrdMap<K, V>,
+    i: usize,
+}
+impl<'a, K, V> Iterator for Values<'a, K, V> {
+    type Item = &'a V;
+    fn next(&mut self) -> Option<&'a V> {
+        if self.i < ORD_CAP {
+            let r = self.m.items[self.i].as_ref().map(|kv| &kv.1);
+            self.i += 1;
+            r
+        } else {
+            None
+        }
     }
 }
 
@@ -168,7 +274,9 @@ unsafe fn deliver(sig: c_int) {
     info.si_signo = sig;
     let mut ctx = 0u8;
     LOGN = 0;
+    IN_DELIVERY = true;
     handler(sig, &mut info as *mut siginfo_t, &mut ctx as *mut u8 as *mut c_void);
+    IN_DELIVERY = false;
 }
 unsafe fn log_is(expect: &[u8]) -> bool {
     if LOGN != expect.len() {
@@ -198,7 +306,8 @@ unsafe fn setup_old(handler_kind: u8) {
 // C05 / C02 / C01(lib.rs part): a bounded-shape history through the REAL mutators and dispatcher.
 // Two signals A != B (symbolic), up to three actions, symbolic choice of which id is removed.
 #[kani::proof]
-#[kani::unwind(12)]
+#[kani::unwind(7)]
+#[kani::stub(half_lock::WriteGuard::<T>::store, half_lock::verif_contract::store_contract)]
 fn c05_history() {
     lm::link();
     let a: c_int = kani::any();
@@ -240,7 +349,7 @@ fn c05_history() {
 
 // C05.UNREG-SIGNAL : unregister_signal removes all actions of one signal, nothing else
 #[kani::proof]
-#[kani::unwind(12)]
+#[kani::unwind(7)]
 fn c05_unregister_signal() {
     lm::link();
     let a: c_int = kani::any();
@@ -272,6 +381,7 @@ fn c05_unregister_signal() {
 
 // C05.FLAGS / C04.PREV-FROM-SWAP : Slot::new installs {handler, SA_RESTART|SA_SIGINFO, empty mask}
 #[kani::proof]
+#[kani::unwind(4)]
 fn c05_slot_new() {
     lm::link();
     let sig: c_int = kani::any();
@@ -339,7 +449,7 @@ fn c14_forbidden_list() {
 
 // C14.ERR-NO-PUBLISH : when the OS refuses the signal, an error is returned and nothing is published
 #[kani::proof]
-#[kani::unwind(12)]
+#[kani::unwind(7)]
 fn c14_err_no_publish() {
     lm::link();
     let a: c_int = kani::any();
@@ -374,7 +484,8 @@ static mut AT_INSTALL_OK: bool = false;
 fn on_sigaction_installed() {}
 
 #[kani::proof]
-#[kani::unwind(12)]
+#[kani::unwind(7)]
+#[kani::stub(half_lock::WriteGuard::<T>::store, half_lock::verif_contract::store_contract)]
 fn c04_chain() {
     lm::link();
     let a: c_int = kani::any();
@@ -423,7 +534,7 @@ fn window_delivery(sig: c_int, act_set: bool) {
     }
 }
 #[kani::proof]
-#[kani::unwind(12)]
+#[kani::unwind(7)]
 fn c04_window() {
     lm::link();
     let a: c_int = kani::any();
@@ -440,5 +551,355 @@ fn c04_window() {
         // a delivery of ANOTHER signal that finds the stale fallback of `a` must not call it
         deliver(b);
         assert!(log_is(&[PREV3, 7]) && PREV_SIG == b, "C04.FALLBACK-INERT: once the slot is published the fallback is inert; other signals chain to their own previous handler");
+    }
+}
+
+
+
+
+
+// =============================================================================================
+// Per-operation contracts from an ARBITRARY small registry state (inductive step of C05/C02):
+// two signals A != B; A has up to two actions, B up to one; ids and next_id symbolic, subject to the
+// representation invariant (ids strictly below next_id, increasing in registration order).
+use half_lock::verif_contract as hc;
+
+struct St {
+    a: c_int,
+    b: c_int,
+    ida: [u128; 2],
+    na: usize,
+    idb: u128,
+    nb: usize,
+    next: u128,
+}
+unsafe fn arbitrary_state() -> St {
+    arbitrary_state_shape(2, 1, true)
+}
+/// `max_a`/`max_b`: concrete caps on the number of actions; `with_b`: whether signal B has a slot.
+unsafe fn arbitrary_state_shape(max_a: usize, max_b: usize, with_b: bool) -> St {
+    let a: c_int = kani::any();
+    let b: c_int = kani::any();
+    kani::assume(a != b);
+    let na: usize = kani::any();
+    let nb: usize = kani::any();
+    kani::assume(na <= max_a && nb <= max_b);
+    let ida: [u128; 2] = [kani::any(), kani::any()];
+    let idb: u128 = kani::any();
+    let next: u128 = kani::any();
+    kani::assume(ida[0] < ida[1] && ida[1] < next && idb < next && idb != ida[0] && idb != ida[1] && ida[0] >= 1 && idb >= 1);
+    kani::assume(next < u128::MAX); // ledger A9
+    let mut sd = SignalData { signals: HashMap::new(), next_id: next };
+    let mut sa = Slot { prev: Prev { signal: a, info: std::mem::zeroed() }, actions: BTreeMap::new() };
+    if na >= 1 {
+        sa.actions.insert(ActionId(ida[0]), Arc::from(act(1)));
+    }
+    if na >= 2 {
+        sa.actions.insert(ActionId(ida[1]), Arc::from(act(2)));
+    }
+    let mut sb = Slot { prev: Prev { signal: b, info: std::mem::zeroed() }, actions: BTreeMap::new() };
+    if nb >= 1 {
+        sb.actions.insert(ActionId(idb), Arc::from(act(3)));
+    }
+    if let Entry::Vacant(p) = sd.signals.entry(a) {
+        p.insert(sa);
+    }
+    if with_b {
+        if let Entry::Vacant(p) = sd.signals.entry(b) {
+            p.insert(sb);
+        }
+    } else {
+        std::mem::forget(sb);
+    }
+    let g = GlobalData::ensure();
+    let mut w = g.data.write();
+    hc::store_contract(&mut w, sd);
+    drop(w);
+    hc::STORE_CALLS = 0;
+    hc::track(0, &g.data);
+    hc::track(1, &g.race_fallback);
+    hc::READER_INCS = 0;
+    St { a, b, ida, na, idb, nb, next }
+}
+/// number of actions of `sig` in the published snapshot, and whether `id` is among them
+unsafe fn view(sig: c_int) -> (bool, usize) {
+    let cur = hc::current(&GlobalData::get().data);
+    match cur.signals.get(&sig) {
+        Some(slot) => (true, slot.actions.len()),
+        None => (false, 0),
+    }
+}
+unsafe fn has(sig: c_int, id: u128) -> bool {
+    let cur = hc::current(&GlobalData::get().data);
+    match cur.signals.get(&sig) {
+        Some(slot) => {
+            let mut found = false;
+            let mut i = 0;
+            while i < ORD_CAP {
+                if let Some((k, _)) = &slot.actions.items[i] {
+                    if k.0 == id {
+                        found = true;
+                    }
+                }
+                i += 1;
+            }
+            found
+        }
+        None => false,
+    }
+}
+unsafe fn quiescent() -> bool {
+    let g = GlobalData::get();
+    hc::mutex_free(&g.data) && hc::mutex_free(&g.race_fallback) && hc::readers(&g.data) == 0 && hc::readers(&g.race_fallback) == 0
+}
+
+#[kani::proof]
+#[kani::unwind(7)]
+#[kani::stub(half_lock::WriteGuard::<T>::store, half_lock::verif_contract::store_contract)]
+#[kani::stub(core::sync::atomic::Atomic::<usize>::fetch_add, half_lock::verif_contract::fetch_add_counting)]
+fn c05_op_unregister() {
+    unsafe { op_unregister(arbitrary_state()) }
+}
+#[kani::proof]
+#[kani::unwind(7)]
+#[kani::stub(half_lock::WriteGuard::<T>::store, half_lock::verif_contract::store_contract)]
+#[kani::stub(core::sync::atomic::Atomic::<usize>::fetch_add, half_lock::verif_contract::fetch_add_counting)]
+fn c05_op_unregister_small() {
+    unsafe { op_unregister(arbitrary_state_shape(1, 1, true)) }
+}
+unsafe fn op_unregister(st: St) {
+    {
+        let s: c_int = kani::any();
+        let x: u128 = kani::any();
+        let live = (s == st.a && ((st.na >= 1 && x == st.ida[0]) || (st.na >= 2 && x == st.ida[1]))) || (s == st.b && st.nb >= 1 && x == st.idb);
+        let r = unregister(SigId { signal: s, action: ActionId(x) });
+        assert!(hc::READER_INCS == 0, "C02.COPY-UNDER-MUTEX: a mutator never takes the reader path; the snapshot it copies and modifies is read under the writer mutex (no lost update between overlapping mutators)");
+        assert!(r == live, "C05.UNREG-IFF-LIVE: unregister(id) returns true exactly when that action is still registered (stale, foreign and never-issued ids: false)");
+        assert!(hc::STORE_CALLS == live as usize && hc::STORE_UNDER_MUTEX, "C05.PUBLISH-IFF-CHANGED: a new snapshot is published (once, under the writer mutex) iff something was removed");
+        // whole-view postcondition
+        let cur = hc::current(&GlobalData::get().data);
+        assert!(cur.next_id == st.next, "C05.ID-FRESH: removal never gives an id back (next_id unchanged)");
+        assert!(view(st.a) == (true, st.na - (live && s == st.a) as usize) && view(st.b) == (true, st.nb - (live && s == st.b) as usize), "C05.REMOVE-ONLY-IT: exactly one action disappears, slots are never removed");
+        assert!(has(st.a, st.ida[0]) == (st.na >= 1 && !(s == st.a && x == st.ida[0])), "C05.REMOVE-ONLY-IT: every other action of the same signal stays");
+        assert!(has(st.a, st.ida[1]) == (st.na >= 2 && !(s == st.a && x == st.ida[1])), "C05.REMOVE-ONLY-IT: every other action of the same signal stays");
+        assert!(has(st.b, st.idb) == (st.nb >= 1 && !(s == st.b && x == st.idb)), "C05.REMOVE-ONLY-IT: actions of other signals stay");
+        assert!(quiescent(), "C18.MUTATOR-RELEASES: the mutator returns with every lock released and no reader section open");
+        kani::cover!(live && s == st.a && x == st.ida[0] && st.na == 2, "C05.cover: remove the older of two");
+        kani::cover!(!live && s == st.a, "C05.cover: stale id on a known signal");
+    }
+}
+
+unsafe fn op_unregister_signal(st: St) {
+    let s: c_int = kani::any();
+    let had = (s == st.a && st.na >= 1) || (s == st.b && st.nb >= 1);
+    #[allow(deprecated)]
+    let r = unregister_signal(s);
+    assert!(hc::READER_INCS == 0, "C02.COPY-UNDER-MUTEX: a mutator never takes the reader path; the snapshot it copies and modifies is read under the writer mutex (no lost update between overlapping mutators)");
+    assert!(r == had, "C05.UNREG-SIGNAL: unregister_signal returns true exactly when the signal had actions");
+    assert!(hc::STORE_CALLS == had as usize && hc::STORE_UNDER_MUTEX, "C05.PUBLISH-IFF-CHANGED: a new snapshot is published (once, under the writer mutex) iff something was removed");
+    let cur = hc::current(&GlobalData::get().data);
+    assert!(cur.next_id == st.next, "C05.ID-FRESH: removal never gives an id back (next_id unchanged)");
+    assert!(view(st.a) == (true, if s == st.a { 0 } else { st.na }) && view(st.b) == (true, if s == st.b { 0 } else { st.nb }), "C05.UNREG-SIGNAL: all actions of that signal and only those are removed; slots are never removed");
+    assert!(has(st.b, st.idb) == (st.nb >= 1 && s != st.b) && has(st.a, st.ida[0]) == (st.na >= 1 && s != st.a), "C05.REMOVE-ONLY-IT: actions of other signals stay");
+    assert!(quiescent(), "C18.MUTATOR-RELEASES: the mutator returns with every lock released and no reader section open");
+    kani::cover!(had && s == st.a && st.na == 2, "C05.cover: two actions removed at once");
+}
+#[kani::proof]
+#[kani::unwind(7)]
+#[kani::stub(half_lock::WriteGuard::<T>::store, half_lock::verif_contract::store_contract)]
+#[kani::stub(core::sync::atomic::Atomic::<usize>::fetch_add, half_lock::verif_contract::fetch_add_counting)]
+fn c05_op_unregister_signal() {
+    unsafe { op_unregister_signal(arbitrary_state()) }
+}
+#[kani::proof]
+#[kani::unwind(7)]
+#[kani::stub(half_lock::WriteGuard::<T>::store, half_lock::verif_contract::store_contract)]
+#[kani::stub(core::sync::atomic::Atomic::<usize>::fetch_add, half_lock::verif_contract::fetch_add_counting)]
+fn c05_op_unregister_signal_small() {
+    unsafe { op_unregister_signal(arbitrary_state_shape(1, 1, true)) }
+}
+
+// register on a signal that already has a slot: fresh id, appended last, no system call
+unsafe fn op_register_occupied(st: St) {
+    lm::link();
+    let s: c_int = if kani::any() { st.a } else { st.b };
+    kani::assume(!FORBIDDEN.contains(&s));
+    lm::reset();
+    let r = register_sigaction(s, act(9));
+    assert!(hc::READER_INCS == 0, "C02.COPY-UNDER-MUTEX: a mutator never takes the reader path; the snapshot it copies and modifies is read under the writer mutex (no lost update between overlapping mutators)");
+    assert!(r.is_ok(), "C05.REG-OK: registering on an already handled signal cannot fail");
+    let id = r.unwrap();
+    assert!(id.signal == s && id.action.0 == st.next, "C05.ID-FRESH: the id handed out is the snapshot's next_id - never handed out before");
+    let cur = hc::current(&GlobalData::get().data);
+    assert!(cur.next_id == st.next + 1, "C05.ID-FRESH: and next_id moves on by one in the published snapshot");
+    assert!(hc::STORE_CALLS == 1 && hc::STORE_UNDER_MUTEX && hc::STORE_ON[0] == hc::addr(&GlobalData::get().data), "C05.PUBLISH-IFF-CHANGED: exactly one publication, of the data snapshot, under the writer mutex");
+    assert!(view(st.a) == (true, st.na + (s == st.a) as usize) && view(st.b) == (true, st.nb + (s == st.b) as usize) && has(s, st.next), "C05.REG-APPEND: the new action is added to its signal and nothing else changes");
+    assert!(has(st.a, st.ida[0]) == (st.na >= 1) && has(st.a, st.ida[1]) == (st.na >= 2) && has(st.b, st.idb) == (st.nb >= 1), "C05.REG-APPEND: every existing action stays");
+    assert!(lm::tlen() == 0, "C05.INSTALL-ONCE: no sigaction call when the signal already has a slot (the handler installed at first registration stays)");
+    // it runs last
+    deliver(s);
+    assert!(LOGN >= 1 && LOG[LOGN - 1] == 9, "C02.ID-MONO: the newest action runs after all older ones of its signal");
+    assert!(quiescent(), "C18.MUTATOR-RELEASES: every lock released, no reader section open");
+}
+#[kani::proof]
+#[kani::unwind(7)]
+#[kani::stub(half_lock::WriteGuard::<T>::store, half_lock::verif_contract::store_contract)]
+#[kani::stub(core::sync::atomic::Atomic::<usize>::fetch_add, half_lock::verif_contract::fetch_add_counting)]
+fn c05_op_register_occupied() {
+    unsafe { op_register_occupied(arbitrary_state()) }
+}
+#[kani::proof]
+#[kani::unwind(7)]
+#[kani::stub(half_lock::WriteGuard::<T>::store, half_lock::verif_contract::store_contract)]
+#[kani::stub(core::sync::atomic::Atomic::<usize>::fetch_add, half_lock::verif_contract::fetch_add_counting)]
+fn c05_op_register_occupied_small() {
+    unsafe { op_register_occupied(arbitrary_state_shape(1, 0, true)) }
+}
+
+// first registration of a signal: detect -> publish fallback -> install -> publish slot
+static mut NEW_SIG: c_int = 0;
+static mut INSTALL_SEEN: bool = false;
+fn at_sigaction(sig: c_int, act_set: bool) {
+    unsafe {
+        let g = GlobalData::get();
+        if act_set {
+            INSTALL_SEEN = true;
+            assert!(sig == NEW_SIG, "C05.INSTALL-ONCE: the handler is installed for the signal being registered");
+            assert!(hc::STORE_CALLS == 1 && hc::STORE_ON[0] == hc::addr(&g.race_fallback), "C04.REG-ORDER: the fallback was published before the library's handler became the disposition");
+            let fb = hc::current(&g.race_fallback);
+            assert!(match fb { Some(p) => p.signal == sig && p.info.sa_sigaction == lm::OLD_HANDLER, None => false }, "C04.REG-ORDER: and it holds this signal's previous disposition");
+            assert!(!hc::mutex_free(&g.data) && hc::mutex_free(&g.race_fallback), "C18.LOCK-ORDER: the fallback lock is taken and released inside the data lock, which is still held while the handler is switched");
+            assert!(hc::current(&g.data).signals.get(&sig).is_none(), "C04.REG-ORDER: the slot is published only after the handler was installed");
+            // a delivery at this very instant chains to the previous handler and runs no action
+            let saved = LOGN;
+            LOGN = 0;
+            let mut info: siginfo_t = std::mem::zeroed();
+            let mut ctx = 0u8;
+            handler(sig, &mut info as *mut siginfo_t, &mut ctx as *mut u8 as *mut c_void);
+            assert!(LOGN == 1 && LOG[0] == PREV3 && PREV_SIG == sig, "C04.GAP-FREE: a delivery at the instant the library's handler becomes the disposition runs the previous handler exactly once and no action");
+            LOGN = saved;
+        } else {
+            assert!(hc::STORE_CALLS == 0, "C04.REG-ORDER: the previous disposition is queried first");
+        }
+    }
+}
+#[kani::proof]
+#[kani::unwind(7)]
+#[kani::stub(half_lock::WriteGuard::<T>::store, half_lock::verif_contract::store_contract)]
+fn c04_op_register_vacant() {
+    lm::link();
+    unsafe {
+        let st = arbitrary_state_shape(1, 0, false);
+        let c: c_int = kani::any();
+        kani::assume(c != st.a && !FORBIDDEN.contains(&c));
+        setup_old(4);
+        NEW_SIG = c;
+        lm::ON_SIGACTION_DONE = Some(at_sigaction);
+        lm::reset();
+        let r = register_sigaction(c, act(9));
+        assert!(r.is_ok() && INSTALL_SEEN, "C05.REG-OK: the first registration of a signal installs the handler and succeeds when the OS accepts it");
+        let id = r.unwrap();
+        assert!(id.signal == c && id.action.0 == st.next, "C05.ID-FRESH: fresh id");
+        assert!(lm::tlen() == 2 && lm::at(0).b == 0 && lm::at(1).b == 1, "C05.INSTALL-ONCE: exactly two sigaction calls: query, then install");
+        assert!(hc::STORE_CALLS == 2 && hc::STORE_ON[1] == hc::addr(&GlobalData::get().data), "C04.REG-ORDER: the slot is published last");
+        let cur = hc::current(&GlobalData::get().data);
+        assert!(cur.next_id == st.next + 1 && view(c) == (true, 1) && has(c, st.next) && view(st.a) == (true, st.na), "C05.REG-APPEND: the new slot holds exactly the new action; other signals are untouched");
+        assert!(match cur.signals.get(&c) { Some(s) => s.prev.signal == c && s.prev.info.sa_sigaction == lm::OLD_HANDLER && s.prev.info.sa_flags == lm::OLD_FLAGS, None => false }, "C04.PREV-FROM-SWAP: the slot remembers the disposition returned by the installing call");
+        deliver(c);
+        assert!(log_is(&[PREV3, 9]), "C04.FIRST: afterwards a delivery runs the previous handler first, then the action");
+        assert!(quiescent(), "C18.MUTATOR-RELEASES: every lock released, no reader section open");
+    }
+}
+
+// the dispatcher, from an arbitrary state and an arbitrary fallback
+static mut IN_DELIVERY: bool = false;
+pub fn delivery_lock_stub<T: ?Sized>(m: &std::sync::Mutex<T>) -> std::sync::LockResult<std::sync::MutexGuard<'_, T>> {
+    unsafe {
+        assert!(!IN_DELIVERY, "C03.NO-LOCK: a signal delivery never acquires a lock");
+    }
+    match m.try_lock() {
+        Ok(g) => Ok(g),
+        Err(std::sync::TryLockError::Poisoned(p)) => Err(p),
+        Err(std::sync::TryLockError::WouldBlock) => {
+            assert!(false, "C18.NO-SELF-DEADLOCK: a mutex is never requested while this thread already holds it");
+            kani::assume(false);
+            unreachable!()
+        }
+    }
+}
+pub fn delivery_wait_stub() {
+    unsafe {
+        assert!(!IN_DELIVERY, "C03.NO-WAIT: a signal delivery never yields or spins waiting for another thread");
+    }
+}
+#[kani::proof]
+#[kani::unwind(7)]
+#[kani::stub(half_lock::WriteGuard::<T>::store, half_lock::verif_contract::store_contract)]
+#[kani::stub(std::sync::Mutex::<T>::lock, delivery_lock_stub)]
+#[kani::stub(std::thread::yield_now, delivery_wait_stub)]
+#[kani::stub(core::sync::atomic::spin_loop_hint, delivery_wait_stub)]
+#[kani::stub(core::hint::spin_loop, delivery_wait_stub)]
+fn c02_op_handler() {
+    lm::link();
+    unsafe {
+        let st = arbitrary_state();
+        // previous dispositions: A had a siginfo handler, B a plain one
+        // (slots are built with zeroed prev; patch them in the published snapshot)
+        let g = GlobalData::get();
+        let fb_sig: c_int = kani::any();
+        let fb_some: bool = kani::any();
+        if fb_some {
+            let mut sa: libc::sigaction = std::mem::zeroed();
+            sa.sa_sigaction = prev_three as usize;
+            sa.sa_flags = libc::SA_SIGINFO;
+            let mut w = g.race_fallback.write();
+            hc::store_contract(&mut w, Some(Prev { signal: fb_sig, info: sa }));
+        }
+        let sig: c_int = kani::any();
+        deliver(sig);
+        if sig == st.a {
+            assert!(log_is(if st.na == 0 { &[] } else if st.na == 1 { &[1] } else { &[1, 2] }), "C02.ORDER: a delivery runs exactly the actions of its signal in the one snapshot it read, each once, in id (= registration) order");
+        } else if sig == st.b {
+            assert!(log_is(if st.nb == 0 { &[] } else { &[3] }), "C02.ONLY-SIG: actions registered for other signals are never run");
+        } else if fb_some && fb_sig == sig {
+            assert!(log_is(&[PREV3]) && PREV_SIG == sig, "C04.FALLBACK-ONLY-UNSLOTTED: without a slot, a matching fallback is chained to, exactly once");
+        } else {
+            assert!(log_is(&[]), "C04.FALLBACK-MATCH: a fallback recorded for another signal is never called; an unknown signal runs nothing");
+        }
+        assert!(quiescent(), "C03.READ-BALANCED: the delivery leaves both reader counts as it found them and touches no mutex");
+        kani::cover!(sig == st.a && st.na == 2, "C02.cover: two actions in order");
+        kani::cover!(fb_some && fb_sig == sig && sig != st.a && sig != st.b, "C04.cover: fallback used");
+    }
+}
+
+// C14.ERR-NO-PUBLISH : the OS refuses the signal (query or install fails) => Err, nothing published
+#[kani::proof]
+#[kani::unwind(7)]
+#[kani::stub(half_lock::WriteGuard::<T>::store, half_lock::verif_contract::store_contract)]
+fn c14_op_register_refused() {
+    lm::link();
+    unsafe {
+        let st = arbitrary_state_shape(1, 0, false);
+        let c: c_int = kani::any();
+        kani::assume(c != st.a && !FORBIDDEN.contains(&c));
+        setup_old(0);
+        lm::SIGACTION_FAIL_FROM = 0; // either sigaction call may be refused
+        lm::reset();
+        let r = register_sigaction(c, act(9));
+        let n = lm::tlen();
+        let refused = lm::at(n - 1).r != 0;
+        assert!(r.is_err() == refused, "C14.ERR-PROPAGATE: registration fails exactly when the OS refused a sigaction call, and passes the error on");
+        let g = GlobalData::get();
+        if refused {
+            let data_addr = hc::addr(&g.data);
+            assert!((hc::STORE_CALLS == 0 || hc::STORE_ON[0] != data_addr) && (hc::STORE_CALLS <= 1), "C14.ERR-NO-PUBLISH: a refused registration never publishes a registry snapshot");
+            let cur = hc::current(&g.data);
+            assert!(cur.next_id == st.next && view(c) == (false, 0) && view(st.a) == (true, st.na), "C14.ERR-NO-PUBLISH: the registry is exactly as before (no slot, no id consumed)");
+            deliver(c);
+            assert!(log_is(&[]), "C14.ERR-NO-PUBLISH: the refused action never runs");
+            kani::cover!(n == 1, "C14.cover: the query was refused");
+            kani::cover!(n == 2, "C14.cover: the installing call was refused");
+        }
+        assert!(quiescent(), "C14.STAYS-USABLE: all locks are released on the error path too (the library stays usable)");
     }
 }
